@@ -461,6 +461,18 @@ func (c *Variant) Equals(obj *Variant) bool {
 	if !reflect.TypeOf(value1).Comparable() || !reflect.TypeOf(value2).Comparable() {
 		return reflect.DeepEqual(value1, value2)
 	}
+	return equalPayloads(value1, value2)
+}
+
+// equalPayloads compares two payloads of comparable types. Such a payload can still hold
+// data that does not support == behind an interface (a struct with an interface field that
+// contains a slice or a map); == panics on those at run time, they are compared deeply.
+func equalPayloads(value1 interface{}, value2 interface{}) (equal bool) {
+	defer func() {
+		if recover() != nil {
+			equal = reflect.DeepEqual(value1, value2)
+		}
+	}()
 	return value1 == value2
 }
 
